@@ -110,6 +110,51 @@ def corpus_variants(prop):
     return out
 
 
+def rename_locals(source):
+    import ast
+
+    tree = ast.parse(source)
+
+    def own_nodes(fn):
+        """nodes of the function's own scope (not descending into nested functions, lambdas, classes; comprehensions are descended
+        into because their iterables / conditions read the enclosing scope, their targets are handled as bound names)"""
+        out = []
+        todo = list(fn.body)
+        while todo:
+            n = todo.pop()
+            out.append(n)
+            for ch in ast.iter_child_nodes(n):
+                if isinstance(ch, (ast.FunctionDef, ast.AsyncFunctionDef, ast.Lambda, ast.ClassDef)):
+                    out.append(ch)
+                    continue
+                todo.append(ch)
+        return out
+
+    for fn in [n for n in ast.walk(tree) if isinstance(n, (ast.FunctionDef, ast.AsyncFunctionDef))]:
+        nodes = own_nodes(fn)
+        nested = [n for n in nodes if isinstance(n, (ast.FunctionDef, ast.AsyncFunctionDef, ast.Lambda, ast.ClassDef))]
+        params = {a.arg for a in fn.args.posonlyargs + fn.args.args + fn.args.kwonlyargs}
+        if fn.args.vararg:
+            params.add(fn.args.vararg.arg)
+        if fn.args.kwarg:
+            params.add(fn.args.kwarg.arg)
+        declared = {x for n in nodes if isinstance(n, (ast.Global, ast.Nonlocal)) for x in n.names}
+        stored = {n.id for n in nodes if isinstance(n, ast.Name) and isinstance(n.ctx, (ast.Store, ast.Del))}
+        comp_bound = {x.id for n in nodes if isinstance(n, ast.comprehension) for x in ast.walk(n.target) if isinstance(x, ast.Name)}
+        nested_names = {x.id for nf in nested for x in ast.walk(nf) if isinstance(x, ast.Name)} | \
+                       {a.arg for nf in nested if not isinstance(nf, ast.ClassDef) for a in nf.args.args}
+        imported = {(a.asname or a.name).split('.')[0] for n in nodes if isinstance(n, (ast.Import, ast.ImportFrom)) for a in n.names}
+        cand = stored - params - declared - comp_bound - nested_names - imported - {n.name for n in nested if hasattr(n, 'name')}
+        cand = {c for c in cand if not c.startswith('__')}
+        if not cand:
+            continue
+        mapping = {c: c + '_r' for c in cand}
+        for n in nodes:
+            if isinstance(n, ast.Name) and n.id in mapping:
+                n.id = mapping[n.id]
+    return ast.unparse(tree) + '\n'
+
+
 def apply(repo, m):
     """-> overlay dict or None when the anchor text is no longer present (stale)."""
     overlay = {}
@@ -123,6 +168,13 @@ def apply(repo, m):
         for rel in MBI_FILES + MECH_FILES:
             if repo.exists(rel):
                 overlay[rel] = ast.unparse(ast.parse(repo.source(rel))) + '\n'
+        return overlay
+    if m['edits'] == 'RENAME':
+        # every local variable (not a parameter, not shared with a nested scope) gets another name: behaviour does not change
+        from ..srcmodel import MBI_FILES, MECH_FILES
+        for rel in MBI_FILES + MECH_FILES:
+            if repo.exists(rel):
+                overlay[rel] = rename_locals(repo.source(rel))
         return overlay
     for rel, old, new in m['edits']:
         src = overlay.get(rel) or repo.source(rel)
@@ -164,7 +216,7 @@ def evaluate(args):
     except Exception as e:
         return (m['id'], 'analysis-error', 'internal %s: %s' % (type(e).__name__, e))
     # a variant is judged by what it adds to the verdict on the unmodified current tree
-    new = [o for o in ctx.violations() if match_known(m['prop'], o, known) is None and o.key() not in base]
+    new = [o for o in ctx.violations() if match_known(m['prop'], o, known, ctx.repo) is None and o.key() not in base]
     if m['kind'] == 'K':
         want = m.get('rule')
         hit = [o for o in new if want is None or o.rule == want or o.rule in (want if isinstance(want, (list, tuple)) else ())]
